@@ -100,6 +100,18 @@ CLAIMED["C03"] = (
     "DESIGN.md 3 C03",
 )
 
+CLAIMED["C05"] = (
+    XH + "; validators symbolic at the comparison, plumbing path-exhaustive over a candidate table and two-step operation histories",
+    "The real range checks of uint16/uint32/boolean/net.ipaddress are decided for all integers (accepted iff representable, stored value equal, rejected calls raise), "
+    "the digest setters for every text length and hex-ness including exception safety (a rejected assignment leaves the member as it was), typed lists and bytes over their "
+    "argument kinds; Record.__setattr__, the generated constructor, _replace and init_from_dict are run for 14 field types over a candidate table "
+    "(valid, boundary, just outside, wrong kind, sibling field type, None) in all two-step histories, with an independent validity predicate per declared type "
+    "checked after every step, unchanged state after every rejected step, and serialisability at the end.",
+    "Trusted: conversion inside C constructors; the candidate table for content classes the solver cannot reach (digest text with whitespace). Stubs: a2b_hex as a length/hex-ness "
+    "model, stdlib ipaddress error messages.",
+    "DESIGN.md 3 C05",
+)
+
 NOT_APPLICABLE = {
     "C13": "every operation the property constrains (datetime construction/arithmetic, fromisoformat, zoneinfo, fastavro/sqlite3 conversions) is C code; "
     "CrossHair realises each datetime component at the C constructor and the repo-side logic is two value-free ifs, so no value-level case would be decided by the solver (DESIGN.md 6)",
